@@ -93,6 +93,15 @@ def numberField (name : Str) (auto : Option Nat) : Except Err ((First × Steps) 
     | _ => .ok (fieldNameSplit name, none)
   else .ok (fieldNameSplit name, auto)
 
+/-- number the field (loguru's rule), then `Formatter.get_field` -/
+def lgGetField {V} (env : Env V) (name : Str) (auto : Option Nat) : Except Err (V × Option Nat) :=
+  match numberField name auto with
+  | .error e => .error e
+  | .ok (sp, auto1) =>
+    match getFieldSplit env sp with
+    | .error e => .error e
+    | .ok v => .ok (v, auto1)
+
 def pwfPieces {V} (self : Str → Option Nat → Except Err (Str × Option Nat)) (env : Env V) :
     List Piece → Option Nat → Except Err (Str × Option Nat)
   | [], auto => .ok ([], auto)
@@ -103,24 +112,21 @@ def pwfPieces {V} (self : Str → Option Nat → Except Err (Str × Option Nat))
       | .ok (r, a) => .ok (p.lit ++ r, a)
       | .error e => .error e
     | some f =>
-      match numberField f.name auto with
+      match lgGetField env f.name auto with
       | .error e => .error e
-      | .ok (sp, auto1) =>
-        match getFieldSplit env sp with
+      | .ok (v, auto1) =>
+        match doConv env f.conv v with
         | .error e => .error e
         | .ok v =>
-          match doConv env f.conv v with
+          match self f.spec auto1 with
           | .error e => .error e
-          | .ok v =>
-            match self f.spec auto1 with
+          | .ok (spec, auto2) =>
+            match env.format v spec with
             | .error e => .error e
-            | .ok (spec, auto2) =>
-              match env.format v spec with
+            | .ok s =>
+              match pwfPieces self env ps auto2 with
+              | .ok (r, a) => .ok (p.lit ++ s ++ r, a)
               | .error e => .error e
-              | .ok s =>
-                match pwfPieces self env ps auto2 with
-                | .ok (r, a) => .ok (p.lit ++ s ++ r, a)
-                | .error e => .error e
 
 /-- `_parse_with_formatting` with `levels` nesting levels left; returns the stripped text -/
 def pwf {V} (env : Env V) : Nat → Str → Option Nat → Except Err (Str × Option Nat)
